@@ -49,8 +49,9 @@ def build_lib(cxx="g++", extra_flags=(), tag="base"):
         # prune old caches of the same tag
         # (entries are touched on every use; only ones unused for hours go, so that concurrent runs against other trees keep theirs)
         olds = sorted(glob.glob(os.path.join(BUILD, "lib", tag + "-*")), key=os.path.getmtime)
-        for o in olds[:-2]:
-            if time.time() - os.path.getmtime(o) > 4 * 3600 or len(olds) > 24: shutil.rmtree(o, ignore_errors=True)
+        for k, o in enumerate(olds[:-2]):
+            age = time.time() - os.path.getmtime(o)
+            if age > 4 * 3600 or (len(olds) - k > 30 and age > 900): shutil.rmtree(o, ignore_errors=True)
         tmp = d + ".tmp"
         shutil.rmtree(tmp, ignore_errors=True); os.makedirs(tmp)
         _version_hpp(os.path.join(tmp, "version.hpp"))
@@ -91,9 +92,11 @@ def build_harness(src, libdir, cxx="g++", extra_flags=(), out=None):
         if os.path.exists(exe):
             os.utime(exe); return exe
         cached = sorted(glob.glob(os.path.join(odir, name + "-*")), key=os.path.getmtime)
-        for o in cached[:-2]:
-            # a binary another run may be using right now (other tree, other compiler, other flags) stays: only ones unused for hours go
-            if time.time() - os.path.getmtime(o) > 4 * 3600 or len(cached) > 40:
+        for k, o in enumerate(cached[:-2]):
+            # a binary another run may be using right now (other tree, other compiler, other flags) stays: only ones unused for hours go,
+            # and beyond 60 entries the oldest ones that have not been touched for a quarter of an hour
+            age = time.time() - os.path.getmtime(o)
+            if age > 4 * 3600 or (len(cached) - k > 60 and age > 900):
                 try: os.remove(o)
                 except OSError: pass
         r = sh([cxx] + flags + ["-I", os.path.join(REPO, "include"), "-I", libdir, "-I", hdir, src,
